@@ -109,6 +109,9 @@ func scenarios(run *report.Run) []scen {
 	for rep := 0; rep < run.Pick(4, 16); rep++ {
 		res = append(res, scen{Order: []string{"idleedge"}, Callers: 1 + rep%4, Idle: []time.Duration{300, 150, 600, 1000}[rep/4%4] * time.Microsecond, MaxWorkers: 1 + rep%3, Trials: run.Pick(2500, 10000)})
 	}
+	for rep := 0; rep < run.Pick(3, 8); rep++ {
+		res = append(res, scen{Order: []string{"rendezvous"}, Callers: 1, Idle: []time.Duration{20, 200}[rep%2] * time.Millisecond, MaxWorkers: []int{10, 2, 5}[rep%3], Trials: run.Pick(10, 40)})
+	}
 	for rep := 0; rep < run.Pick(3, 9); rep++ {
 		res = append(res, scen{Order: []string{"chase"}, Callers: 1, Idle: 3 * time.Second, MaxWorkers: 1 + rep%3, Trials: run.Pick(20000, 200000)})
 	}
@@ -235,7 +238,7 @@ func nativeScenarios(run *report.Run) []scen {
 			continue
 		}
 		switch sc.Order[0] {
-		case "chase", "idleconvoy", "idleedge", "contended":
+		case "chase", "idleconvoy", "idleedge", "contended", "rendezvous":
 		default:
 			if len(res)%3 != 0 && sc.Idle > 200*time.Millisecond {
 				continue
@@ -248,6 +251,64 @@ func nativeScenarios(run *report.Run) []scen {
 		res = append(res, scen{Order: []string{"chase"}, Callers: 1, Idle: 3 * time.Second, MaxWorkers: 10, Trials: run.Pick(20000, 200000), Native: true})
 	}
 	return res
+}
+
+// rendezvous: k futures become due together and each callback waits (up to 300 ms) until all k are running: the
+// pool grows by what the backlog visible at pop time needs. The statement bounds the lateness only for callbacks
+// that return promptly - these do not (a future that becomes due microseconds after a worker went off into a
+// waiting callback is served when that callback gives up, on the unchanged library too) - so only "every one of
+// them is started eventually" is judged: within k waits + the usual bound.
+func rendezvous(sc scen) (fs []tmon.Finding, nFut int, stats map[string]int64, inconclusive string) {
+	stats = map[string]int64{}
+	setup(sc)
+	mon := tmon.New()
+	var mu sync.Mutex
+	var need int
+	var arrived int
+	var all chan struct{}
+	mon.OnStart = func(*tmon.Fut) {
+		mu.Lock()
+		arrived++
+		ch := all
+		if arrived == need {
+			close(all)
+		}
+		mu.Unlock()
+		select {
+		case <-ch:
+		case <-time.After(300 * time.Millisecond):
+		}
+	}
+	for tr := 0; tr < sc.Trials; tr++ {
+		k := []int{2, 3, 5, 2, 4}[tr%5]
+		if k > sc.MaxWorkers {
+			k = sc.MaxWorkers
+		}
+		mu.Lock()
+		need, arrived, all = k, 0, make(chan struct{})
+		ch := all
+		mu.Unlock()
+		for i := 0; i < k; i++ {
+			mon.Call(5*time.Millisecond, 0, false)
+		}
+		select {
+		case <-ch:
+		case <-time.After(5*300*time.Millisecond + lateBound):
+		}
+		stats["rendezvous_bursts"]++
+		final, lost := tmon.Drain(60 * time.Second)
+		if !final {
+			return nil, len(mon.Futures()), stats, "drain watchdog after a rendezvous burst: " + lost
+		}
+		if lost != "" {
+			fs = append(fs, tmon.Finding{Sig: "timer/pending-without-worker", What: lost})
+			break
+		}
+	}
+	jf, worst := mon.Judge(5*300*time.Millisecond + lateBound)
+	fs = append(fs, jf...)
+	stats["worst_lateness_with_waiting_callbacks_us"] = int64(worst / time.Microsecond)
+	return fs, len(mon.Futures()), stats, ""
 }
 
 // chase: a goroutine schedules the next call the moment it sees the previous callback run (swept by 0..2 us):
@@ -469,6 +530,9 @@ func contendedWindDown(sc scen) (fs []tmon.Finding, nFut int, stats map[string]i
 func runScenario(sc scen) (fs []tmon.Finding, nFut int, stats map[string]int64, inconclusive string) {
 	if len(sc.Order) == 1 && sc.Order[0] == "contended" {
 		return contendedWindDown(sc)
+	}
+	if len(sc.Order) == 1 && sc.Order[0] == "rendezvous" {
+		return rendezvous(sc)
 	}
 	if len(sc.Order) == 1 && sc.Order[0] == "chase" {
 		return chase(sc)
@@ -749,7 +813,7 @@ func TestChild(t *testing.T) {
 func TestCheck(t *testing.T) {
 	run := report.New("C13", "exploration")
 	defer run.Finish(t)
-	run.Rule("arrival patterns: permutations of {far future (30 s, or 'never' = MaxInt64), near future 20 ms, burst of 50 futures (> pool), cancel the head of the queue, idle gap of 2.5 idle timeouts} (24 orders quick, all 120 thorough) x 1 or 4 concurrent callers x idle timeout 20 ms / 200 ms (/ 5 s thorough) x pool limit 1/2/10, callbacks return at once; between the elements futures that fired or were cancelled already are cancelled again (late / repeated cancels); extra patterns with seven long watchdogs of different deadlines, two of which are cancelled from the middle of the queue, mixed with near futures and bursts. Monitors: every non-cancelled future starts (drain detector on hook state; pending>0 with no worker is final), lateness <= 1.5 s, hook invariant pending>0 => workers>=1 sampled under the package lock, workers reach 0 within (limit+3) idle periods + 2 s and the goroutine census agrees, a Call after the wind-down fires again; contended wind-down rounds: a far future pending, a blocking burst grows the pool to its limit, four goroutines hammer the package lock while the surplus workers leave - one worker must stay. a third of the 10-worker scenarios and slow patterns with a deadline 2.5 s ahead (inside the 3 s idle timeout) pending when a near one arrives; the chase trials (a Call issued the moment the previous callback is seen running, swept by 0-2 us, 3 s idle timeout) also run in children that never replace the package state built by the package's own init(). evaluations = futures; distinct = distinct scenario configurations")
+	run.Rule("arrival patterns: permutations of {far future (30 s, or 'never' = MaxInt64), near future 20 ms, burst of 50 futures (> pool), cancel the head of the queue, idle gap of 2.5 idle timeouts} (24 orders quick, all 120 thorough) x 1 or 4 concurrent callers x idle timeout 20 ms / 200 ms (/ 5 s thorough) x pool limit 1/2/10, callbacks return at once; between the elements futures that fired or were cancelled already are cancelled again (late / repeated cancels); extra patterns with seven long watchdogs of different deadlines, two of which are cancelled from the middle of the queue, mixed with near futures and bursts. Monitors: every non-cancelled future starts (drain detector on hook state; pending>0 with no worker is final), lateness <= 1.5 s, hook invariant pending>0 => workers>=1 sampled under the package lock, workers reach 0 within (limit+3) idle periods + 2 s and the goroutine census agrees, a Call after the wind-down fires again; contended wind-down rounds: a far future pending, a blocking burst grows the pool to its limit, four goroutines hammer the package lock while the surplus workers leave - one worker must stay. a third of the 10-worker scenarios and rendezvous bursts (2-5 futures due together whose callbacks wait up to 300 ms for each other; only eventual start is judged, the statement bounds lateness for prompt callbacks only); slow patterns with a deadline 2.5 s ahead (inside the 3 s idle timeout) pending when a near one arrives; the chase trials (a Call issued the moment the previous callback is seen running, swept by 0-2 us, 3 s idle timeout) also run in children that never replace the package state built by the package's own init(). evaluations = futures; distinct = distinct scenario configurations")
 	run.Assume("lateness and wind-down bounds are two orders of magnitude above the healthy values and guarded by a stall canary (repeat up to 3 times, then inconclusive)")
 
 	if p := os.Getenv("VERIF_REPLAY"); p != "" {
